@@ -393,6 +393,16 @@ theorem ident_dash_class (doC : Bool) (n : Nat) (hn : n = 1 ∨ n = 2) (c : Nat)
     scan false doC (dashes n ++ (c :: cs ++ stop)) productions = .hit "IDENT" (n + (c :: cs).length) :=
   scan_ident_dash doC n hn c cs stop hc hcs hs
 
+/-- FUNCTION with one or two leading hyphens (`-moz-calc(`), whatever follows -/
+theorem function_dash_class (doC : Bool) (n : Nat) (hn : n = 1 ∨ n = 2) (c : Nat) (cs rest : Cps)
+    (hc : inR nameStart c = true) (hcs : ∀ x ∈ cs, inR identRest x = true) :
+    scan false doC (dashes n ++ (c :: cs ++ 40 :: rest)) productions =
+      .hit "FUNCTION" (n + (c :: cs).length + 1) :=
+  scan_function_dash doC n hn c cs rest hc hcs
+
+example : (tokenize [45, 109, 111, 122, 45, 99, 40, 49, 41] false true).tokens.map proj =
+    [("FUNCTION", [45, 109, 111, 122, 45, 99, 40]), ("NUMBER", [49]), ("CHAR", [41])] := by decide +kernel
+
 /-- S: a run of white space (tab, CR, LF, FF, space) up to the end of the text or a code point that is not white
 space -/
 theorem s_class (doC : Bool) (c : Nat) (cs next : Cps) (hc : isWsC c = true) (hcs : ∀ x ∈ cs, isWsC x = true)
